@@ -68,6 +68,33 @@ def run(tier):
                                  {**idn, "mean_float_inputs": mu, "mean_integer_inputs": mu_i}, site="GpLinearInverter:input-form")
         except Exception as ex:
             ck.violation("GpLinearInverter raised on integer-typed inputs", {**idn, "error": repr(ex)[:300]}, site="GpLinearInverter:input-form")
+        try:
+            # whole-number hyper-parameters as an integer array give what the equal float array gives; a float array modified in place
+            # between calls gives the value at its current content
+            ti = np.array(([0, -1, 0, 1, -1] * 3)[:len(th)], dtype=int)
+            g_i = np.asarray(inv.marginal_likelihood_gradient(ti)[1], dtype=float)
+            g_f = np.asarray(inv.marginal_likelihood_gradient(ti.astype(float))[1], dtype=float)
+            mu_i, S_i = inv.calculate_posterior(ti)
+            mu_f, S_f = inv.calculate_posterior(ti.astype(float))
+            tm = th.copy()
+            m_a = np.array(inv.calculate_posterior_mean(tm))
+            tm += 0.25
+            m_b, (m_b2, S_b2) = np.array(inv.calculate_posterior_mean(tm)), inv.calculate_posterior(tm)
+            inv_new = GpLinearInverter(y=y, y_err=yerr, model_matrix=A, parameter_spatial_positions=pos,
+                                       prior_covariance_function=G.build_kernel(pb["kern"], d, p)[0], prior_mean_function=G.build_mean(pb["mean"])[0])
+            m_fresh, (m_fresh2, S_fresh2) = np.array(inv_new.calculate_posterior_mean(tm.copy())), inv_new.calculate_posterior(tm.copy())   # an inverter without history
+            tm -= 0.25
+            m_c = np.array(inv.calculate_posterior_mean(tm))
+            ck.case(str(idn) + "forms")
+            if not (np.array_equal(g_i, g_f) and np.array_equal(np.asarray(mu_i, dtype=float), np.asarray(mu_f, dtype=float)) and np.array_equal(S_i, S_f)):
+                ck.violation("integer-typed hyper-parameters give the results of the equal float hyper-parameters",
+                             {**idn, "gradient_float": g_f, "gradient_integer": g_i}, site="GpLinearInverter.marginal_likelihood_gradient:dtype")
+            if not (np.array_equal(m_b, m_fresh) and np.array_equal(np.asarray(m_b2), np.asarray(m_fresh2)) and np.array_equal(S_b2, S_fresh2)
+                    and np.allclose(m_c, m_a, rtol=1e-12, atol=1e-12)):
+                ck.violation("results at the current content of a hyper-parameter array modified in place between calls",
+                             {**idn, "after_change": m_b, "fresh_array": m_fresh, "first": m_a, "after_changing_back": m_c}, site="GpLinearInverter:stale-state")
+        except Exception as ex:
+            ck.violation("GpLinearInverter raised (integer-typed / re-used hyper-parameter array)", {**idn, "error": repr(ex)[:300]}, site="GpLinearInverter:input-form")
         if not repeat_ok:
             ck.violation("results do not depend on which methods were called before (repeated calls return the same values)",
                          {**idn, "first_mean_only": mu2, "second_mean_only": mu2b, "third_mean_only": mu2c}, site="GpLinearInverter:repeat")
